@@ -25,7 +25,7 @@ def gen_subtree(rng, sc, base, depth, fanout, links=True, specials=False, gitign
         elif r < 0.5 and specials:
             sc.s(p, rng.choice(['fifo', 'sock'])); out.append((p, 's'))
         else:
-            sc.f(p); out.append((p, 'f'))
+            sc.f(p, text=b'' if rng.random() < 0.15 else None); out.append((p, 'f'))
     for d in dirs:
         out += gen_subtree(rng, sc, d, depth - 1, fanout, links, specials)
     return out
@@ -90,6 +90,16 @@ def gen_c02(rng, driver):
                 if not single_file:
                     sc.d(dest + b'/' + n)
                 sc.f(dest + b'/' + n + (b'' if single_file else b'/leftover'))
+        if destk == 'dir-populated' and not single_file and rng.random() < 0.6:
+            # the earlier copy was of an OLDER version of the tree: some names now have another kind
+            ents = [e for e in sc.entries if e['p'].startswith(srcs[0] + b'/') and e['p'].count(b'/') == srcs[0].count(b'/') + 1]
+            for e in rng.sample(ents, min(len(ents), 2)):
+                t = dest + b'/' + roots[0] + e['p'][len(srcs[0]):]
+                if any(x['p'] == t for x in sc.entries):
+                    continue
+                if e['k'] == 'd': sc.f(t)                                   # was a file, is now a directory
+                elif e['k'] == 'f': rng.choice([lambda: sc.d(t), lambda: sc.f(t), lambda: sc.l(t, b'../keep')])()
+                elif e['k'] == 'l': rng.choice([lambda: sc.f(t), lambda: sc.l(t, b'stale-target')])()
     elif destk == 'file':
         sc.f(dest)
     sc.opts = ['r'] if not single_file or rng.random() < 0.5 else []
